@@ -14,6 +14,170 @@ RULE = "rule instances = (rule, site) pairs over MIR stores / branches / call si
 SS = 'StreamsState'
 
 
+# value conversions that do not change the number: VarInt <-> u64 (Into/From are already transparent in descriptors)
+_CONV = ('VarInt::into_inner', '<VarInt as Into>::into', '<u64 as From>::from', 'VarInt::from_u32', 'u64::from')
+
+
+def _unconv(v):
+    """peel number-preserving conversion calls off the root of a descriptor"""
+    while v[0] == 'call' and (v[1] in _CONV or D._trait_form(v[1]) in _CONV) and len(v[3]) == 1:
+        v = v[3][0]
+    return v
+
+
+def _is_param(v, name):
+    """the value IS the parameter `name` (modulo VarInt/u64 conversion), not something computed from it"""
+    v = _unconv(v)
+    return v[0] == 'param' and v[2] == name
+
+
+def _is_param_field(v, pname, fname):
+    """the value IS `<param pname>.<fname>` (modulo VarInt/u64 conversion)"""
+    v = _unconv(v)
+    return v[0] == 'field' and v[2] == fname and v[1][0] == 'param' and v[1][2] == pname
+
+
+def _is_field_of_self(v, fname):
+    """`self.<fname>` or `self.<..>.<fname>`: a plain field path rooted at the receiver"""
+    if not (v[0] == 'field' and v[2] == fname):
+        return False
+    x = v[1]
+    while x[0] == 'field':
+        x = x[1]
+    return x[0] == 'param' and x[1] == 1
+
+
+def _is_call_to(v, name, bbs=None):
+    return v[0] == 'call' and (v[1] == name or D._trait_form(v[1]) == name) and (bbs is None or (len(v) > 4 and v[4] in bbs))
+
+
+def _agg_field(v, name):
+    """operand descriptor of field `name` of an ADT aggregate descriptor, else None"""
+    if v[0] == 'agg' and v[1] == 'adt' and len(v) > 4 and name in v[4]:
+        return v[3][v[4].index(name)]
+    return None
+
+
+def _is_slice_len_of_get(v, get_bbs):
+    return v[0] == 'call' and v[1].rsplit('::', 1)[-1] == 'len' and len(v[3]) == 1 and _is_call_to(v[3][0], 'SendBuffer::get', get_bbs)
+
+
+def _cursor_start(v, P, get_bbs, depth=0):
+    """start of the copy cursor: the polled range's start, advanced only by the lengths of the slices SendBuffer::get
+    returned (`start += data.len()`), on every reaching definition"""
+    if depth > 8:
+        return False
+    for x in flat(v):
+        if x == ('field', P, 'start'):
+            continue
+        if x[0] in ('local', 'field') and not D.calls_in(x) and not D.has_param(x) and not D.consts_in(x):
+            continue    # loop-carried reference to the cursor itself
+        if x[0] == 'bin' and x[1] == 'Add':
+            a, b = x[2], x[3]
+            if _is_slice_len_of_get(b, get_bbs) and _cursor_start(a, P, get_bbs, depth + 1):
+                continue
+            if _is_slice_len_of_get(a, get_bbs) and _cursor_start(b, P, get_bbs, depth + 1):
+                continue
+        return False
+    return True
+
+
+def _polled_range(v, poll_bbs, get_bbs):
+    """the range handed to SendBuffer::get IS the range poll_transmit returned (`.0` of its result, possibly cloned or
+    carried through the StreamMeta literal), or a Range literal whose end is that range's end and whose start is that
+    range's start advanced by the copied lengths.  Returns the polled-range descriptor or None."""
+    if v[0] == 'field' and v[2] == '0' and _is_call_to(v[1], 'SendBuffer::poll_transmit', poll_bbs):
+        return v
+    if v[0] == 'agg' and v[1] == 'adt' and len(v) > 4 and tuple(v[4]) == ('start', 'end') and 'Range' in v[2]:
+        st, en = v[3]
+        if en[0] == 'field' and en[2] == 'end' and _polled_range(en[1], poll_bbs, get_bbs) is not None and _cursor_start(st, en[1], get_bbs):
+            return en[1]
+    return None
+
+
+def _range_len_of(v, pname, fname):
+    """exactly `<param>.<fname>.end - <param>.<fname>.start` (both ends of the same range)"""
+    if not (v[0] == 'bin' and v[1] == 'Sub'):
+        return False
+    e, s = v[2], v[3]
+    return e[0] == 'field' and e[2] == 'end' and s[0] == 'field' and s[2] == 'start' and e[1] == s[1] \
+        and e[1][0] == 'field' and e[1][2] == fname and e[1][1][0] == 'param' and e[1][1][2] == pname
+
+
+def _operand_local(op):
+    return op[1][0] if op[0] in ('c', 'm') else None
+
+
+def _chain_patches(F, body, op, seen=None, out=None):
+    """field-wise modifications of the value behind a MIR operand: partial definitions (`x.f = ..`, `x.f += ..`) and
+    mutable borrows of every local on its definition chain (moves, copies, reborrows, casts, transparent calls such as
+    clone).  Value descriptors of whole locals do not show partial redefinitions, so rules that need "this IS the value
+    produced there" ask for this list.  Items: ('field', def) | ('mutborrow', local)."""
+    seen = set() if seen is None else seen
+    out = [] if out is None else out
+    l = _operand_local(op)
+    if l is None or l in seen:
+        return out
+    seen.add(l)
+    if l in describer(F, body).mut_borrowed:
+        out.append(('mutborrow', l))
+    for df in body.defs_of(l):
+        if df[0] in ('field', 'callfield', 'sd'):
+            out.append(('field', df))
+        elif df[0] == 'stmt':
+            rv = df[3]
+            if rv[0] == 'use':
+                _chain_patches(F, body, rv[1], seen, out)
+            elif rv[0] == 'cast':
+                _chain_patches(F, body, rv[2], seen, out)
+            elif rv[0] in ('ref', 'ptr'):
+                _chain_patches(F, body, ['c', rv[2]], seen, out)
+        elif df[0] == 'call':
+            c = df[2]
+            if c.f and D._is_transparent(short(c.f), c.f) and c.args:
+                _chain_patches(F, body, c.args[0], seen, out)
+    return out
+
+
+def _never_patched(F, body, op):
+    return not _chain_patches(F, body, op)
+
+
+def _agg_stmts(F, body, op, seen=None):
+    """aggregate-construction statements the MIR operand's value comes from through moves / copies / reborrows /
+    transparent calls; None when some reaching definition is anything else or a local on the way is patched field-wise"""
+    seen = set() if seen is None else seen
+    l = _operand_local(op)
+    if l is None or op[1][1] and [e for e in op[1][1] if e != '*']:
+        return None
+    if l in seen:
+        return []
+    seen.add(l)
+    if l in describer(F, body).mut_borrowed:
+        return None
+    out = []
+    for df in body.defs_of(l):
+        if df[0] == 'stmt':
+            rv = df[3]
+            if rv[0] == 'agg':
+                out.append(rv)
+                continue
+            if rv[0] == 'use':
+                sub = _agg_stmts(F, body, rv[1], seen)
+            elif rv[0] == 'ref':
+                sub = _agg_stmts(F, body, ['c', rv[2]], seen)
+            else:
+                sub = None
+        elif df[0] == 'call' and df[2].f and D._is_transparent(short(df[2].f), df[2].f) and df[2].args:
+            sub = _agg_stmts(F, body, df[2].args[0], seen)
+        else:
+            sub = None
+        if sub is None:
+            return None
+        out.extend(sub)
+    return out
+
+
 def rule_a(ctx):
     F = ctx.facts
     wl = ctx.pfn('StreamsState::write_limit')
@@ -166,9 +330,10 @@ def rule_d(ctx):
                 # violating: offset <= max_data
                 return o == 'Le' and D.has_param(a, name='offset') and D.has_field(b, 'max_data')
             guard_protects(ctx, 'd', 'stream_max_data_only_grows', imd, rel, [w.bb], what='offset <= max_data')
-            ctx.check(D.has_param(v, name='offset'), 'd', 'stream_max_data_value', imd, w.where(), D.render(v), 'stored value is not the offset parameter')
+            ctx.check(_is_param(v, 'offset'), 'd', 'stream_max_data_value', imd, w.where(), D.render(v),
+                      'the stored stream limit is not the received offset itself (the guard compares `offset`, so anything else can exceed what the peer granted): ' + D.render(v)[:160])
         elif r.short == 'StreamsState::set_params':
-            ok = D.has_field(v, 'initial_max_stream_data_bidi_local') and v[0] != 'phi'
+            ok = _is_param_field(v, 'params', 'initial_max_stream_data_bidi_local')
             ctx.check(ok, 'd', 'stream_max_data_from_params', r, w.where(), D.render(v)[:120], 'set_params stores a value other than the transport parameter: ' + D.render(v)[:200])
         else:
             ctx.bad('d', 'stream_max_data_writers/unexpected_writer', r, w.where(), 'unexpected store to Send.max_data in %s' % r.short)
@@ -177,7 +342,27 @@ def rule_d(ctx):
     cons = constructions(F, 'send::Send', 'Send')
     for c in cons:
         r = F.root_of(c.body)
-        ctx.check(r.short == 'Send::new', 'd', 'send_constructed_in_new', r, c.where(), 'Send{..} built in Send::new', 'Send{..} literal outside Send::new')
+        op = c.field_op('max_data')
+        v = describer(F, c.body).operand(op, c.bb, c.idx) if op is not None else ('const', 'other', '<no max_data field>', '')
+        ctx.check(r.short == 'Send::new' and c.body.id == r.id and _is_param(v, 'max_data'), 'd', 'send_constructed_in_new', r, c.where(),
+                  'Send{max_data: <the max_data parameter>, ..} built in Send::new',
+                  'Send{..} literal outside Send::new' if r.short != 'Send::new' else 'Send::new does not start the stream limit at its max_data parameter: max_data = ' + D.render(v)[:160])
+    ctx.floor('d', 'send_literals', len(cons), 1)
+    # ... and that parameter is the negotiated per-stream limit: Send::new(max_data) only inside get_or_insert_send with its own
+    # parameter, which every caller computes with max_send_data(id)
+    news = who_may_call(ctx, 'd', 'send_new_callers', ['Send::new'], ['state::get_or_insert_send'], floor=1)
+    for c in news:
+        if is_noise(c) or not root_matches(ctx, c.body, ['state::get_or_insert_send']):
+            continue
+        a = _unconv(arg_desc(F, c, 0))
+        ctx.check((a[0] == 'upvar' and a[1] == 'max_data') or (a[0] == 'param' and a[2] == 'max_data'), 'd', 'send_new_given_callers_limit', F.root_of(c.body), c.where(), D.render(a)[:120],
+                  'get_or_insert_send creates the stream with something other than the limit it was given: ' + D.render(a)[:160])
+    gois = [c for c in F.callers_of('state::get_or_insert_send', crate='quinn_proto') if not is_noise(c)]
+    for c in gois:
+        a = arg_desc(F, c, 0)
+        ctx.check(all(_is_call_to(x, 'StreamsState::max_send_data') for x in flat(a)), 'd', 'new_send_limit_is_max_send_data', F.root_of(c.body), c.where(), D.render(a)[:120],
+                  'a lazily created send stream does not start at max_send_data(id): ' + D.render(a)[:160])
+    ctx.floor('d', 'get_or_insert_send_callers', len(gois), 6)
     # max[dir]
     rms = ctx.pfn('StreamsState::received_max_streams')
     sp = ctx.pfn('StreamsState::set_params')
@@ -227,10 +412,14 @@ def rule_e(ctx):
     for w, v in store_values(ctx, SS, 'unacked_data'):
         r = F.root_of(w.body)
         if r.short == 'StreamsState::received_ack_of':
-            ok = v[0] == 'bin' and v[1] == 'Sub' and D.has_field(v[3], 'offsets')
+            ok = v[0] == 'bin' and v[1] == 'Sub' and _is_field_of_self(v[2], 'unacked_data') and _range_len_of(v[3], 'frame', 'offsets')
             ctx.check(ok, 'e', 'ack_releases_acked_range', r, w.where(), D.render(v)[:140], 'unexpected release expression: ' + D.render(v)[:200])
         elif r.short == 'SendStream::reset':
-            ok = v[0] == 'bin' and v[1] == 'Sub' and D.has_call(v[3], 'SendBuffer::unacked')
+            ok = v[0] == 'bin' and v[1] == 'Sub' and _is_field_of_self(v[2], 'unacked_data') and _is_call_to(v[3], 'SendBuffer::unacked')
+            # ... of the stream being reset: the receiver of unacked() is `.pending` of the Send that reset() is then called on
+            if ok:
+                recv = v[3][3][0] if v[3][3] else ()
+                ok = bool(recv) and recv[0] == 'field' and recv[2] == 'pending' and any(arg_desc(F, c, 0) == recv[1] for c in w.body.calls_to('Send::reset'))
             ctx.check(ok, 'e', 'reset_releases_unacked_remainder', r, w.where(), D.render(v)[:140], 'unexpected release expression: ' + D.render(v)[:200])
 
 
@@ -258,20 +447,62 @@ def rule_f(ctx):
     gets = wsf.calls_to('SendBuffer::get')
     polls = wsf.calls_to('SendBuffer::poll_transmit')
     ctx.floor('f', 'poll_transmit_sites', len(polls), 1)
+    poll_bbs = {c.bb for c in polls}
+    get_bbs = {c.bb for c in gets}
     for c in gets:
         a = arg_desc(F, c, 1)
-        ctx.check(D.has_call(a, 'SendBuffer::poll_transmit'), 'f', 'frame_bytes_from_polled_range', wsf, c.where(), D.render(a)[:160],
-                  'SendBuffer::get range does not derive from SendBuffer::poll_transmit: ' + D.render(a)[:200])
+        # the range IS the one poll_transmit returned for the same buffer (start advanced only by what was copied), not
+        # merely something computed from it
+        P = None
+        alts = [_polled_range(x, poll_bbs, get_bbs) for x in flat(a)]
+        if alts and all(x is not None and x == alts[0] for x in alts):
+            P = alts[0]
+        ok = P is not None and arg_desc(F, c, 0) == P[1][3][0]
+        why = ''
+        # a copy cursor may only be patched by `cursor.start += <length of the slice get returned>`
+        d = describer(F, wsf)
+        for kind, df in _chain_patches(F, wsf, c.args[1]) if ok else ():
+            fs = [e for e in df[3][1] if e != '*'] if kind == 'field' and df[0] == 'field' else None
+            v = d.rvalue(df[4], df[1], df[2], 0) if fs else None
+            if not (fs and len(fs) == 1 and fs[0][0] == 'f' and fs[0][1] == 'start' and all(x[0] == 'bin' for x in flat(v)) and _cursor_start(v, P, get_bbs)):
+                ok, why = False, ' (the range is modified other than by `start += copied length`%s)' % (': start = ' + D.render(v)[:120] if v else '')
+        ctx.check(ok, 'f', 'frame_bytes_from_polled_range', wsf, c.where(), D.render(a)[:160],
+                  'SendBuffer::get is not asked for exactly the range SendBuffer::poll_transmit returned for this buffer%s: ' % why + D.render(a)[:200])
     ctx.floor('f', 'get_sites', len(gets), 1)
     puts = [c for c in wsf.calls_to('BufMut::put_slice')]
     for c in puts:
         a = arg_desc(F, c, 1)
-        ctx.check(D.has_call(a, 'SendBuffer::get'), 'f', 'payload_from_send_buffer', wsf, c.where(), D.render(a)[:100], 'STREAM payload not taken from SendBuffer::get')
+        ctx.check(all(_is_call_to(x, 'SendBuffer::get', get_bbs) for x in flat(a)), 'f', 'payload_from_send_buffer', wsf, c.where(), D.render(a)[:100],
+                  'the STREAM payload written is not the slice SendBuffer::get returned: ' + D.render(a)[:200])
     ctx.floor('f', 'put_slice_sites', len(puts), 1)
-    # the meta pushed to the result carries the polled offsets
+    # the meta pushed to the result is the meta whose header was encoded, and its offsets are the polled range, untouched
+    encs = [c for c in wsf.calls_to('StreamMeta::encode')]
+    enc_descs = [arg_desc(F, c, 0) for c in encs]
     pushes = [c for c in wsf.calls() if c.is_('TinyVec::push', 'StreamMetaVec::push', 'Vec::push') or short(c.f).endswith('::push')]
-    okp = any(D.has_call(arg_desc(F, c, 1), 'SendBuffer::poll_transmit') for c in pushes)
-    ctx.check(okp, 'f', 'recorded_meta_matches_sent_range', wsf, wsf.where(), 'stream_frames.push(meta) with meta.offsets from poll_transmit', 'the StreamMeta recorded for ack/loss does not carry the polled range')
+    metas = []
+    for c in pushes:
+        a = arg_desc(F, c, 1)
+        if any(x[0] == 'agg' and x[1] == 'adt' and x[2].endswith('StreamMeta::StreamMeta') for x in flat(a)) or a in enc_descs:
+            metas.append((c, a))
+    okp = bool(metas) and bool(encs)
+    whyp = 'no StreamMeta is pushed to the result' if not metas else 'no StreamMeta::encode site'
+    for c, a in metas:
+        off = _agg_field(a, 'offsets')
+        if a not in enc_descs:
+            okp, whyp = False, 'the recorded StreamMeta differs from the one whose header was encoded: %s' % D.render(a)[:200]
+        elif off is None or _polled_range(off, poll_bbs, get_bbs) != off:
+            okp, whyp = False, 'the recorded offsets are not the range poll_transmit returned: %s' % D.render(a)[:200]
+        else:
+            aggs = _agg_stmts(F, wsf, c.args[1])
+            clean = bool(aggs)
+            for rv in aggs or ():
+                flds = list(rv[1][3]) if rv[1][0] == 'adt' else []
+                if 'offsets' not in flds or not _never_patched(F, wsf, rv[2][flds.index('offsets')]):
+                    clean = False
+            if not clean:
+                okp, whyp = False, 'the recorded StreamMeta (or its offsets) is a value that is modified field-wise after the poll (e.g. the copy cursor), not the polled range itself'
+    ctx.check(okp, 'f', 'recorded_meta_matches_sent_range', wsf, metas[0][0].where() if metas else wsf.where(),
+              'stream_frames.push(meta): the encoded meta, offsets = the range poll_transmit returned, never patched', 'the StreamMeta recorded for ack/loss does not carry the polled range: ' + whyp)
     who_may_call(ctx, 'f', 'write_stream_frames_callers', ['StreamsState::write_stream_frames'], ['Connection::populate_packet'], floor=1)
 
 
